@@ -995,7 +995,7 @@ def make_controls(cases, seed):
             out.append(cc)
     return out
 
-def run_property(prop, cases, tier, seed, jobs=None, keep=False, group_size=10, level_note='', extra_evidence=None, quiet=False):
+def run_property(prop, cases, tier, seed, jobs=None, keep=False, group_size=10, level_note='', extra_evidence=None, quiet=False, level='proof'):
     """run all cases of one property; write evidence/<prop>.json; print VIOLATION / KNOWN-FINDING lines; return exit code."""
     t_start = time.time()
     jobs = jobs or int(os.environ.get('VERIF_JOBS', str(os.cpu_count() or 8)))
@@ -1103,8 +1103,11 @@ def run_property(prop, cases, tier, seed, jobs=None, keep=False, group_size=10, 
     wall = time.time() - t_start
     # known findings' failing obligations are excluded from both counters so that discharged == obligations
     # exactly when nothing unexplained failed
-    kn_obl = sum(results[cid].get('n_obligations', 0) for cid, _, _ in known)
-    kn_dis = sum(results[cid].get('n_discharged', 0) for cid, _, _ in known)
+    kn_obl = sum(results[cid].get('n_obligations', 0) for cid, _, _ in known if not bycid[cid].bounded)
+    kn_dis = sum(results[cid].get('n_discharged', 0) for cid, _, _ in known if not bycid[cid].bounded)
+    knb_obl = sum(results[cid].get('n_obligations', 0) for cid, _, _ in known if bycid[cid].bounded)
+    knb_dis = sum(results[cid].get('n_discharged', 0) for cid, _, _ in known if bycid[cid].bounded)
+    n_obl_b -= knb_obl; n_dis_b -= knb_dis
     kb = sum(1 for cid, _, _ in known if bycid[cid].bounded)
     samples = [f for f in funcs[:3]]
     for cid, rpath, reproduced, names in violations[:3]:
@@ -1113,9 +1116,11 @@ def run_property(prop, cases, tier, seed, jobs=None, keep=False, group_size=10, 
         samples.append({'case': cases[0].cid, 'status': results.get(cases[0].cid, {}).get('status')})
     modes = sorted(by_mode)
     ev = {
-        'property_id': prop, 'tier': tier, 'seed': seed, 'level': 'proof',
+        'property_id': prop, 'tier': tier, 'seed': seed, 'level': level,
         'coverage': {
             'obligations': n_obl - kn_obl, 'discharged': n_dis - kn_dis,
+            'evaluations': len(real_cases), 'distinct_nontrivial': passed,
+            'rule': 'one case = one instantiation (API form, element type, shape/pattern, configuration) with its contract; distinct by case id; non-trivial = at least one postcondition clause or safety obligation was generated and discharged',
             'checker_cmd': 'clang++-14 <cfg> -S -emit-llvm | tools/ir2c.py | goto-cc | goto-instrument --dfcc main --enforce-contract <entry> | cbmc ' + ' '.join(cbmc_flags(cases[0], 'N')) if cases else '',
             'trusted_base': TRUSTED_BASE,
             'backend': 'cbmc 6.11.0 with --sat-solver %s; contracts enforced by goto-instrument --dfcc' % (case_solver(cases[0]) if cases else 'cadical'),
